@@ -87,6 +87,7 @@ fn cmd_hist(a: &Args) -> Ev {
     let mut ev = Ev::new(&prop);
     let (w, keeps) = kinds::kind_facts(&kind);
     let uni = universe(w, maxlen);
+    let uni_spine = universe_with_spine(w, maxlen);
     let mut total = 0u64;
     let mut h = 0u64;
     while total < steps && !budget.expired() {
@@ -94,7 +95,12 @@ fn cmd_hist(a: &Args) -> Ev {
         h += 1;
         let is_set = sets && hi % 4 == 3 && !matches!(prop.as_str(), "C13" | "C14");
         let rng = Rng::from_parts(&[seed, shard, hi, 0x4849]);
-        let mut g = gen::Gen::new(w, keeps, uni.clone(), rng, is_set);
+        // wide types: every third history works on the universe that holds a full-depth spine
+        let deep = w > 8 && maxlen.is_none() && hi % 3 == 1 && a.u("spine", 1) == 1;
+        let mut g = gen::Gen::new(w, keeps, if deep { uni_spine.clone() } else { uni.clone() }, rng, is_set);
+        if deep {
+            g.spine = spine(w);
+        }
         g.max_keys = a.u("max_keys", if w == 8 { 36 } else { 28 }) as usize;
         g.canonical_only = match prop.as_str() {
             "C15" | "C11" => hi % 2 == 0,
